@@ -11,8 +11,8 @@ import (
 	"sync/atomic"
 	"testing"
 
-	builderapi "github.com/attestantio/go-builder-client/api"
 	blockrelaytypes "github.com/attestantio/go-block-relay/types"
+	builderapi "github.com/attestantio/go-builder-client/api"
 	"github.com/attestantio/go-eth2-client/spec/bellatrix"
 	"github.com/attestantio/go-eth2-client/spec/phase0"
 	"github.com/attestantio/vouch/mock"
@@ -37,7 +37,7 @@ func (k c17PubKey) Marshal() []byte {
 	return b
 }
 func (k c17PubKey) Aggregate(e2types.PublicKey) {}
-func (k c17PubKey) Copy() e2types.PublicKey      { return k }
+func (k c17PubKey) Copy() e2types.PublicKey     { return k }
 
 type c17Account struct{ idx uint64 }
 
@@ -46,7 +46,7 @@ func (a c17Account) ID() uuid.UUID {
 	binary.BigEndian.PutUint64(id[8:], a.idx)
 	return id
 }
-func (a c17Account) Name() string                { return fmt.Sprintf("validator-%d", a.idx) }
+func (a c17Account) Name() string                 { return fmt.Sprintf("validator-%d", a.idx) }
 func (a c17Account) PublicKey() e2types.PublicKey { return c17PubKey{a.idx} }
 
 // c17Majordomo answers every fetch with one of two execution configurations, alternating, so that
@@ -64,9 +64,9 @@ type c17RelayClient struct {
 	n    atomic.Uint64
 }
 
-func (c *c17RelayClient) Name() string                { return "c17" }
-func (c *c17RelayClient) Address() string             { return c.addr }
-func (c *c17RelayClient) Pubkey() *phase0.BLSPubKey   { return nil }
+func (c *c17RelayClient) Name() string              { return "c17" }
+func (c *c17RelayClient) Address() string           { return c.addr }
+func (c *c17RelayClient) Pubkey() *phase0.BLSPubKey { return nil }
 func (c *c17RelayClient) SubmitValidatorRegistrations(context.Context, *builderapi.SubmitValidatorRegistrationsOpts) error {
 	c.n.Add(1)
 	return nil
@@ -128,8 +128,12 @@ func init() {
 		// controller (registrations for new accounts)
 		hammer(2, 100,
 			func(i int) { _, _ = svc.ProposerConfig(ctx, c17Account{uint64(i%3) + 1}, phase0.BLSPubKey{byte(i)}) },
-			func(i int) { _, _ = svc.AuctionBlock(ctx, phase0.Slot(i%4), phase0.Hash32{byte(i)}, phase0.BLSPubKey{byte(i)}) },
-			func(i int) { _, _ = svc.BuilderBid(ctx, phase0.Slot(i%4), phase0.Hash32{byte(i)}, phase0.BLSPubKey{byte(i)}) },
+			func(i int) {
+				_, _ = svc.AuctionBlock(ctx, phase0.Slot(i%4), phase0.Hash32{byte(i)}, phase0.BLSPubKey{byte(i)})
+			},
+			func(i int) {
+				_, _ = svc.BuilderBid(ctx, phase0.Slot(i%4), phase0.Hash32{byte(i)}, phase0.BLSPubKey{byte(i)})
+			},
 			func(i int) {
 				_, _ = svc.ValidatorRegistrations(ctx, []*blockrelaytypes.SignedValidatorRegistration{{
 					Message: &blockrelaytypes.ValidatorRegistration{Pubkey: phase0.BLSPubKey{0xee, byte(i)}, GasLimit: 30000000},
